@@ -353,6 +353,17 @@ func (p *Program) verifyFuncPass(con *Contract, prev *VC) (res *funcResult) {
 		for _, cl := range append(con.clauses("ensures"), con.clauses("ensures_local")...) {
 			vc.oblige("post", fmt.Sprintf("%s/post[%s]", con.FuncName, clauseLabel(cl)), gRet, penv.evalBool(cl.Expr), fmt.Sprintf("%s:%d", cl.File, cl.Line))
 		}
+		// C04: no spurious dependency -- a name recorded with addDep also goes into the output (as a
+		// coq name, as an argument of a translator/printer function, or into a node of the output tree)
+		occ := map[string]int{}
+		for _, d := range vc.depAdds {
+			var uses []string
+			for _, u := range vc.nameUses {
+				uses = append(uses, and(u.guard, eq(u.term, d.term)))
+			}
+			occ[d.label]++
+			vc.oblige("dep-used", fmt.Sprintf("%s/dep-used[%s#%d]", con.FuncName, d.label, occ[d.label]), and(gRet, d.guard), or(uses...), d.pos)
+		}
 		for _, cl := range con.clauses("panics_iff") {
 			c := penv.withMem(fr.entry).evalBool(cl.Expr)
 			vc.oblige("panics_iff←", fmt.Sprintf("%s/panics_iff←[%s]", con.FuncName, clauseLabel(cl)), gRet, not(c), fmt.Sprintf("%s:%d", cl.File, cl.Line))
